@@ -1,7 +1,7 @@
 SPECIFICATION Spec
 CONSTANTS
-  W = 2
-  NL = 2
+  W = 1
+  NL = 3
   MaxPush = 4
   Big = 0
 INVARIANTS Guarantee Converse Lossless NoUnderflow DedupOnlyByStart OutputInDocument SingleLineInDocument
